@@ -1,12 +1,12 @@
 #!/bin/bash
 # Re-run every seeded change against its property's quick check and record the outcome in
-# seeded/<id>/meta.json (detected_by) and .work/matrix.txt. /repo is restored after each one.
+# seeded/<id>/meta.json (detected_by) and .work/matrix.txt. Each change is applied in a scratch worktree of /repo (REPO=<worktree>).
 cd "$(dirname "$0")/.."
 mkdir -p .work
 : > .work/matrix.txt
 for d in seeded/C*-m*; do
   id=$(basename "$d"); pid=${id%%-*}
-  out=$(bash tools/try_mutant.sh "$d" "$pid" quick 2>&1)
+  out=$(bash tools/try_mutant_wt.sh "$d/patch.diff" "$pid" quick 2>&1)
   rc=$(echo "$out" | grep -o 'rc=[0-9]*' | tail -1)
   viol=$(echo "$out" | grep -m1 '^VIOLATION' )
   sumline=$(echo "$out" | grep -E "^\[$pid\] quick" | tail -1)
